@@ -33,6 +33,7 @@ type Engine struct {
 	constGlobals   map[*ssa.Global]*ssa.Const // globals initialised once with a constant and never written again
 	accessed       map[string][]*types.Var    // struct type key -> fields the repository reads or writes
 	tier           string
+	updatingLedger bool
 	timeoutMs      int
 	verbose        bool
 	tmpdir         string
